@@ -225,7 +225,8 @@ def run_task(task, patches=None):
 def _margins(x0, x1, y0, y1, n):
     """witness models away from ties (the real sorters run in floats and use unstable comparisons of equal keys consistently anyway)"""
     vs = [v for i in range(n) for v in (x0[i], x1[i], y0[i], y1[i])]
-    return [z3.Or(a - b >= 1, b - a >= 1) for a, b in itertools.combinations(vs, 2)]
+    # integer coordinates: their differences and comparisons are exact in floats too
+    return [z3.Or(a - b >= 1, b - a >= 1) for a, b in itertools.combinations(vs, 2)] + [v == z3.ToReal(z3.ToInt(v)) for v in vs]
 
 
 _S = 'pero_ocr/layout_engines/smart_sorter.py'
